@@ -22,6 +22,17 @@ def fresh_pair(tag):
     return K, K2
 
 
+def fresh_delegating(tag):
+    """a class with one thread-safe attribute whose instances forward unknown attribute names to their `parent`
+    instance (a tree / proxy idiom): a never-assigned child must still read the default, not its parent's value"""
+    def __getattr__(self, name):
+        parent = self.__dict__.get("parent")
+        if parent is None or name.startswith("__"):
+            raise AttributeError(name)
+        return getattr(parent, name)
+    return MetaThreadSafeAttributes("D%s" % tag, (), {"_attributes": ["a"], "__getattr__": __getattr__})
+
+
 def ops_for(ninst, nattr):
     ops = [("new",), ("drop",)]
     for i in range(ninst):
@@ -34,7 +45,10 @@ def ops_for(ninst, nattr):
 
 def run_seq(seq, nattr, tag):
     """returns (violation or None, canonical model state)"""
-    if nattr == 3:          # inheritance shape: instances of a base class (a) and of its subclass (a, b)
+    if nattr == 4:          # delegating shape: every new instance forwards unknown names to the first one
+        K, K2 = fresh_delegating(tag), None
+        nattr_base = 1
+    elif nattr == 3:        # inheritance shape: instances of a base class (a) and of its subclass (a, b)
         K, K2 = fresh_pair(tag)
         nattr_base = 1
     else:
@@ -44,6 +58,8 @@ def run_seq(seq, nattr, tag):
     for k, op in enumerate(seq):
         if op[0] == "new":
             objs.append(K())
+            if nattr == 4 and len(objs) > 1:
+                objs[-1].__dict__["parent"] = objs[0]
             model.append({a: 0 for a in ["a", "b"][:nattr_base]})
         elif op[0] == "new_sub":
             objs.append(K2())
@@ -95,8 +111,8 @@ def run(tier):
     states = 0
     samples = []
     tag = 0
-    for nattr in (1, 2, 3):     # 3 = the inheritance shape
-        ops = ops_for(3, 2 if nattr == 3 else nattr) + ([("new_sub",)] if nattr == 3 else [])
+    for nattr in (1, 2, 3, 4):     # 3 = the inheritance shape, 4 = instances that forward unknown names to the first one
+        ops = ops_for(3, 2 if nattr == 3 else (1 if nattr == 4 else nattr)) + ([("new_sub",)] if nattr == 3 else [])
         seen = set()
         frontier = [[("new",)]]
         for d in range(1, depth + 1):
